@@ -7,6 +7,9 @@
 import Rl.History
 import Rl.Spec.History
 import Rl.Lemmas.History
+import Rl.Hint
+import Rl.Spec.Hint
+import Rl.Lemmas.Hint
 open Rl Rl.MemHist
 
 /-- abstraction map: model state ↦ spec state -/
@@ -229,3 +232,269 @@ example :
       [.add "a".toList, .add "a".toList, .add " x".toList, .add "bé".toList, .add "c".toList]).1
     h.entries = ["bé".toList, "c".toList] ∧ h.search "é".toList 1 .reverse = some (0, "bé".toList, 1) := by
   decide
+
+/-! ## The history hinter (`src/hint.rs`, model `Rl/Hint.lean`, spec `Rl/Spec/Hint.lean`) -/
+
+/-- Hinter soundness.  If `HistoryHinter::hint(line, pos, ctx)` (model `historyHint`, `idx` =
+    `ctx.history_index()`) returns a hint `r`, then `line` is non-empty, the cursor is not before
+    its end, and there is a stored entry `e` at an index `i` such that: `i` is at or before the
+    start index (`hintStart`: `idx`, or the last entry when `idx = len`), `e` starts with `line`,
+    no entry strictly between `i` and the start index (inclusive) starts with `line` (it is the
+    nearest, towards older entries), `e ≠ line`, and `r` is `e` from byte `pos` on.  When the cursor
+    is exactly at the end of the line (the documented use), `line ++ r` is that stored entry and
+    `r ≠ []`.  No hypotheses on the history. -/
+theorem C09_hinter_sound (h : MemHist) (idx : Nat) (line : Text) (pos : Nat) (r : Text)
+    (hs : historyHint h idx line pos = some (some r)) :
+    line ≠ [] ∧ blen line ≤ pos ∧
+    ∃ i e, NearestPrefix h.entries line (hintStart h idx) i e ∧ e ≠ line ∧
+      (∃ a, e = a ++ r ∧ blen a = pos) ∧
+      (pos = blen line → e = line ++ r ∧ r ≠ []) := by
+  rw [historyHint_unfold] at hs
+  split at hs
+  · simp at hs
+  · rename_i hg
+    have hg1 : line ≠ [] := fun hh => hg (Or.inl hh)
+    have hg2 : blen line ≤ pos := by
+      have : ¬ pos < blen line := fun hh => hg (Or.inr hh)
+      omega
+    refine ⟨hg1, hg2, ?_⟩
+    split at hs
+    · rename_i i e c hsw
+      have hn := startsWith_nearest hsw
+      split at hs
+      · simp at hs
+      · rename_i hne
+        split at hs
+        · rename_i a r' hsp
+          simp at hs; subst hs
+          obtain ⟨h1, h2⟩ := splitAtByte_some hsp
+          refine ⟨i, e, hn, hne, ⟨a, h1, h2.symm⟩, ?_⟩
+          intro hp
+          subst hp
+          rw [splitAtByte_prefix hn.2.2.1] at hsp
+          simp at hsp
+          obtain ⟨ha, hr⟩ := hsp
+          subst ha
+          refine ⟨h1, ?_⟩
+          intro hr0
+          rw [hr0] at h1; simp at h1; exact hne h1
+        · simp at hs
+    · simp at hs
+
+/-- Hinter completeness (exact characterisation of "no hint").  The hinter answers `None` (without
+    panicking) iff the line is empty, or the cursor is before the end of the line, or the start
+    index is outside the store (empty history, or a context index beyond `len`), or no entry at or
+    before the start index starts with `line`, or the nearest such entry *equals* `line` (then the
+    code gives up and does not look further back for a longer entry). -/
+theorem C09_hinter_none (h : MemHist) (idx : Nat) (line : Text) (pos : Nat) :
+    historyHint h idx line pos = some none ↔
+      (line = [] ∨ pos < blen line ∨ h.entries.length ≤ hintStart h idx ∨
+       (∀ (j : Nat) (e' : Text), j ≤ hintStart h idx → h.entries[j]? = some e' → ¬ line <+: e') ∨
+       (∃ i, NearestPrefix h.entries line (hintStart h idx) i line)) := by
+  rw [historyHint_unfold]
+  constructor
+  · intro hs
+    split at hs
+    · rename_i hg
+      rcases hg with hg | hg
+      · exact Or.inl hg
+      · exact Or.inr (Or.inl hg)
+    · split at hs
+      · rename_i i e c hsw
+        have hn := startsWith_nearest hsw
+        split at hs
+        · rename_i he
+          subst he
+          exact Or.inr (Or.inr (Or.inr (Or.inr ⟨i, hn⟩)))
+        · split at hs <;> simp at hs
+      · rename_i hsw
+        rcases (C09_starts_with_none h line _ .reverse).1 hsw with h1 | h1 | ⟨_, h1⟩
+        · exact Or.inl h1
+        · exact Or.inr (Or.inr (Or.inl h1))
+        · exact Or.inr (Or.inr (Or.inr (Or.inl (h1 rfl))))
+  · intro hc
+    split
+    · rfl
+    · rename_i hg
+      split
+      · rename_i i e c hsw
+        have hn := startsWith_nearest hsw
+        rcases hc with h1 | h1 | h1 | h1 | ⟨i', h1⟩
+        · exact absurd (Or.inl h1) hg
+        · exact absurd (Or.inr h1) hg
+        · have := (C09_starts_with_none h line (hintStart h idx) .reverse).2 (Or.inr h1)
+          rw [this] at hsw; simp at hsw
+        · exact absurd hn.2.2.1 (h1 i e hn.1 hn.2.1)
+        · obtain ⟨_, he⟩ := nearestPrefix_unique hn h1
+          simp [he]
+      · rfl
+
+/-- The hinter never panics when the cursor is inside the line (`pos ≤ len(line)`), for any
+    history and any context index.  (With `pos > len(line)` the slice `entry[pos..]` can panic:
+    see the counter-example below.) -/
+theorem C09_hinter_no_panic (h : MemHist) (idx : Nat) (line : Text) (pos : Nat)
+    (hp : pos ≤ blen line) : historyHint h idx line pos ≠ none := by
+  rw [historyHint_unfold]
+  split
+  · simp
+  · rename_i hg
+    have hpe : pos = blen line := by
+      have : ¬ pos < blen line := fun hh => hg (Or.inr hh)
+      omega
+    subst hpe
+    split
+    · rename_i i e c hsw
+      have hn := startsWith_nearest hsw
+      split
+      · simp
+      · rw [splitAtByte_prefix hn.2.2.1]; simp
+    · simp
+
+/-- Refinement: for a context index within the store (`idx ≤ len`) and the cursor inside the line,
+    the hinter returns exactly what the declarative spec `Spec.hint` prescribes. -/
+theorem C09_hinter_eq_spec (h : MemHist) (idx : Nat) (line : Text) (pos : Nat)
+    (hidx : idx ≤ h.entries.length) (hp : pos ≤ blen line) :
+    historyHint h idx line pos = some (Spec.hint h.entries idx line pos) := by
+  rw [historyHint_unfold]
+  unfold Spec.hint
+  by_cases hg : line = [] ∨ pos < blen line
+  · have hg' : line = [] ∨ pos ≠ blen line := by
+      rcases hg with hg | hg
+      · exact Or.inl hg
+      · exact Or.inr (by omega)
+    simp only [hg, hg', if_true]
+  · have hg' : ¬ (line = [] ∨ pos ≠ blen line) := by
+      intro hh; apply hg
+      rcases hh with hh | hh
+      · exact Or.inl hh
+      · exact Or.inr (by omega)
+    have hpe : pos = blen line := by
+      have : ¬ pos < blen line := fun hh => hg (Or.inr hh)
+      omega
+    have hl : line ≠ [] := fun hh => hg (Or.inl hh)
+    simp only [hg, hg', if_false]
+    have hstart : min idx (h.entries.length - 1) = hintStart h idx := by
+      unfold hintStart; split <;> omega
+    rw [hstart]
+    have hfind := searchMatch_eq_find false h line (hintStart h idx) .reverse
+    simp only [testOf, Bool.false_eq_true, if_false] at hfind
+    have hsw : h.startsWith line (hintStart h idx) .reverse
+        = Spec.find false h.entries line (hintStart h idx) .reverse := hfind
+    rw [hsw]
+    unfold Spec.find
+    simp only [Bool.false_eq_true, if_false, hl, false_or]
+    by_cases hlen : hintStart h idx ≥ h.entries.length
+    · have h0 : h.entries.length = 0 := by
+        unfold hintStart at hlen; split at hlen <;> omega
+      have hnil : h.entries = [] := List.eq_nil_of_length_eq_zero h0
+      simp [hnil, Spec.nearest]
+    · simp only [hlen, if_false]
+      cases hn : Spec.nearest (fun e => line.isPrefixOf e) h.entries (hintStart h idx) .reverse with
+      | none => rfl
+      | some i =>
+        simp only []
+        cases hget : h.entries[i]? with
+        | none => rfl
+        | some e =>
+          simp only []
+          have hpre : line <+: e := by
+            simp only [Spec.nearest] at hn
+            have := List.find?_some hn
+            simp [hget] at this
+            exact this.2
+          by_cases he : e = line
+          · simp only [he, if_true]
+          · simp only [he, if_false, hpe, splitAtByte_prefix hpre]
+
+/-- Through the public API (`Context::new`, index = `len`) the hint, when the cursor is at the end
+    of a non-empty line, completes the line to the newest stored entry that starts with it. -/
+theorem C09_hinter_new_sound (h : MemHist) (line r : Text)
+    (hs : historyHintNew h line (blen line) = some (some r)) :
+    r ≠ [] ∧ ∃ i, i < h.entries.length ∧ h.entries[i]? = some (line ++ r) ∧
+      ∀ (j : Nat) (e' : Text), i < j → h.entries[j]? = some e' → ¬ line <+: e' := by
+  obtain ⟨_, _, i, e, hn, _, _, hp⟩ := C09_hinter_sound h _ line _ r hs
+  obtain ⟨he, hr⟩ := hp rfl
+  subst he
+  obtain ⟨h1, h2, _, h4⟩ := hn
+  have hi : i < h.entries.length := by
+    rcases Nat.lt_or_ge i h.entries.length with hlt | hge
+    · exact hlt
+    · rw [List.getElem?_eq_none hge] at h2; simp at h2
+  refine ⟨hr, i, hi, h2, ?_⟩
+  intro j e' hij hj
+  have hjl : j < h.entries.length := by
+    rcases Nat.lt_or_ge j h.entries.length with hlt | hge
+    · exact hlt
+    · rw [List.getElem?_eq_none hge] at hj; simp at hj
+  apply h4 j e' hij _ hj
+  simp only [hintStart, if_true]; omega
+
+/-! Non-vacuity and counter-examples for the hinter (kernel-evaluated). -/
+
+/-- a hint is produced: history `ab`, `aéb`, `b`; line `a` -> `éb` (the newer of the two matches) -/
+example :
+    historyHintNew ((MemHist.new 10 false false).addAll (fun c => c == ' ')
+      ["ab".toList, "aéb".toList, "b".toList]) "a".toList 1 = some (some "éb".toList) := by decide
+
+/-- Surprising but faithful to the code: when the newest entry starting with the line IS the line,
+    there is no hint, although an older entry (`abc`) would complete it. -/
+theorem C09_hinter_stops_at_equal_entry :
+    historyHintNew ((MemHist.new 10 false false).addAll (fun c => c == ' ')
+      ["abc".toList, "ab".toList]) "ab".toList 2 = some none := by decide
+
+/-- `pos ≤ len(line)` is needed for `C09_hinter_no_panic`: with the cursor past the end of the line
+    the slice panics (entry `ab`, line `a`, pos 3) — also when `pos` falls inside a character
+    (entry `aé`, pos 2) — and at `pos = 2` an EMPTY hint `Some("")` is returned. -/
+theorem C09_hinter_panics_past_end :
+    historyHintNew ((MemHist.new 10 false false).addAll (fun c => c == ' ') ["ab".toList]) "a".toList 3 = none ∧
+    historyHintNew ((MemHist.new 10 false false).addAll (fun c => c == ' ') ["aé".toList]) "a".toList 2 = none ∧
+    historyHintNew ((MemHist.new 10 false false).addAll (fun c => c == ' ') ["ab".toList]) "a".toList 2 = some (some []) := by
+  decide
+
+/-- One `add` on the model is the declarative `add` step on the abstract state. -/
+theorem C09_add_abs (ws : Char → Bool) (h : MemHist) (hi : h.entries.length ≤ h.maxLen) (l : Text) :
+    (Spec.step ws (C09_abs h) (.add l)).1 = C09_abs (h.add ws l).1 := by
+  have := C09_run_eq_spec ws h hi [.add l, .dump]
+  simp only [MemHist.run, Spec.run, MemHist.step, Spec.step] at this
+  have hm : (h.add ws l).1.maxLen = h.maxLen ∧ (h.add ws l).1.ignoreSpace = h.ignoreSpace ∧
+      (h.add ws l).1.ignoreDups = h.ignoreDups := by
+    unfold MemHist.add; split <;> simp [MemHist.insert]
+  by_cases hr : Spec.refused ws (C09_abs h) l = true
+  · simp only [Spec.step, hr, if_true] at this ⊢
+    simp at this
+    have h2 : (h.add ws l).1.entries = h.entries := this.2
+    simp only [C09_abs, hm.1, hm.2.1, hm.2.2, h2]
+  · simp only [Spec.step, hr] at this ⊢
+    simp at this
+    have h2 : (h.add ws l).1.entries = Spec.takeLast h.maxLen (h.entries ++ [l]) := this.2
+    simp [C09_abs, hm.1, hm.2.1, hm.2.2, h2]
+
+/-- The history the harness builds (`add` for every entry of the request, in order) has, on the
+    model, the entries the declarative store spec prescribes, and keeps the size bound. -/
+theorem C09_addAll_abs (ws : Char → Bool) (h : MemHist) (hi : h.entries.length ≤ h.maxLen) (ls : List Text) :
+    C09_abs (h.addAll ws ls) = Spec.addAll ws (C09_abs h) ls ∧
+      (h.addAll ws ls).entries.length ≤ (h.addAll ws ls).maxLen := by
+  induction ls generalizing h with
+  | nil => exact ⟨rfl, hi⟩
+  | cons l ls ih =>
+    have hi' : (h.add ws l).1.entries.length ≤ (h.add ws l).1.maxLen := step_inv ws hi (.add l)
+    simp only [MemHist.addAll, Spec.addAll]
+    rw [C09_add_abs ws h hi l]
+    exact ih _ hi'
+
+/-- End-to-end statement of what the `hint` correspondence target compares: a fresh history filled
+    with `add`, `Context::new`, cursor inside the line — the hinter model returns what the
+    declarative hint spec prescribes over the declarative store. -/
+theorem C09_hinter_pipeline (ws : Char → Bool) (m : Nat) (isp idp : Bool) (es : List Text)
+    (line : Text) (pos : Nat) (hp : pos ≤ blen line) :
+    historyHintNew ((MemHist.new m isp idp).addAll ws es) line pos =
+      some (Spec.hint (Spec.addAll ws { max := m, ignoreSpace := isp, ignoreDups := idp } es).entries
+        (Spec.addAll ws { max := m, ignoreSpace := isp, ignoreDups := idp } es).entries.length line pos) := by
+  have h0 : (MemHist.new m isp idp).entries.length ≤ (MemHist.new m isp idp).maxLen := by simp [MemHist.new]
+  obtain ⟨ha, _⟩ := C09_addAll_abs ws (MemHist.new m isp idp) h0 es
+  have he : (Spec.addAll ws { max := m, ignoreSpace := isp, ignoreDups := idp } es).entries
+      = ((MemHist.new m isp idp).addAll ws es).entries := by
+    have : C09_abs (MemHist.new m isp idp) = { max := m, ignoreSpace := isp, ignoreDups := idp } := rfl
+    rw [← this, ← ha]; rfl
+  rw [he]
+  exact C09_hinter_eq_spec _ _ line pos (Nat.le_refl _) hp
